@@ -112,11 +112,14 @@ type APIServer struct {
 	nwatch  map[string]int
 	Lists   []listRecord
 	// fault knobs (consumed by reactors)
-	FailList  map[string]int // resource -> remaining list failures
-	FailWrite map[string]int // verb -> remaining write failures
-	By        string         // attribution of writes arriving through the reactors
-	Obs       *Observer
-	compactRV uint64         // watches from an rv below this get 410 Gone
+	FailList        map[string]int // resource -> remaining list failures
+	FailWrite       map[string]int // verb -> remaining write failures
+	FailWriteName   map[string]int // object name -> remaining failures of writes to an object of that name
+	FaultedNames    map[string]int // object name -> write failures that fired
+	ConflictUpdates int            // remaining updates answered 409 Conflict (a concurrent writer got in between Get and Update)
+	By              string         // attribution of writes arriving through the reactors
+	Obs             *Observer
+	compactRV       uint64 // watches from an rv below this get 410 Gone
 }
 
 func okey(gvr schema.GroupVersionResource, ns, name string) string {
@@ -124,7 +127,7 @@ func okey(gvr schema.GroupVersionResource, ns, name string) string {
 }
 
 func NewAPIServer(e *Env, fc *fake.Cluster) *APIServer {
-	a := &APIServer{e: e, cur: map[string]*unstructured.Unstructured{}, nwatch: map[string]int{}, FailList: map[string]int{}, FailWrite: map[string]int{}, By: "patcher"}
+	a := &APIServer{e: e, cur: map[string]*unstructured.Unstructured{}, nwatch: map[string]int{}, FailList: map[string]int{}, FailWrite: map[string]int{}, FailWriteName: map[string]int{}, FaultedNames: map[string]int{}, By: "patcher"}
 	dyn := fc.Client.Dynamic().(*fakedynamic.FakeDynamicClient)
 	dyn.PrependReactor("*", "*", a.react)
 	dyn.PrependWatchReactor("*", a.reactWatch)
@@ -307,6 +310,19 @@ func (a *APIServer) list(gvr schema.GroupVersionResource, ns string, lsel labels
 // ---------------------------------------------------------------- reactors (dynamic client)
 
 func (a *APIServer) failWrite(verb string, gvr schema.GroupVersionResource, name string) error {
+	if a.FailWriteName[name] > 0 {
+		a.FailWriteName[name]--
+		a.FaultedNames[name]++
+		simrt.Count("fault:write-rejected")
+		simrt.Logf("api FAULT reject %s %s/%s", verb, gvr.Resource, name)
+		return apierrors.NewInternalError(fmt.Errorf("injected %s failure", verb))
+	}
+	if verb == "update" && a.ConflictUpdates > 0 {
+		a.ConflictUpdates--
+		simrt.Count("fault:update-conflict")
+		simrt.Logf("api FAULT conflict on update %s/%s", gvr.Resource, name)
+		return apierrors.NewConflict(gvr.GroupResource(), name, fmt.Errorf("the object has been modified; please apply your changes to the latest version and try again"))
+	}
 	if a.FailWrite[verb] > 0 {
 		a.FailWrite[verb]--
 		simrt.Count("fault:write-rejected")
@@ -592,6 +608,7 @@ func (a *APIServer) reactTypedNs(action ktesting.Action) (bool, runtime.Object, 
 			_ = runtime.DefaultUnstructuredConverter.FromUnstructured(it.Object, &ns)
 			l.Items = append(l.Items, ns)
 		}
+		a.Lists = append(a.Lists, listRecord{Seq: a.e.Seq(), GVR: gvrNS, Sel: fmt.Sprint(lr.Labels) + "|" + fmt.Sprint(lr.Fields), RV: a.rv})
 		simrt.Logf("api list namespaces n=%d rv=%d", len(items), a.rv)
 		return true, l, nil
 	case ktesting.CreateActionImpl:
